@@ -128,6 +128,7 @@ func keysOf(m map[string]bool) string {
 
 func checkC14(r *core.Run) {
 	r.Explain = "Decided statically: (C14.nonblock) every send on MessageFuture.Done cannot block: the channel's only make site has capacity >= 1, or the send sits in a select with a default arm; (C14.table) a pending future is stored only when a waiter exists, the waiter's timeout arm and the write-failure path delete from the same table the store wrote, delivery removes the future after notifying, and nobody else removes one (the waiter on timeout, the failed write, a processor after notifying); (C14.ids) the key stored is the ID of the message handed to WritePkg, delivery looks up the received frame's ID, and every message sent with a waiter takes its ID from one atomic counter object; (C14.timeout) the waiter has a timeout arm returning a non-nil error, and every callback handed to the send together with a stored future reaches that waiter (directly or through a goroutine it starts). (C14.timeout, also) every receive from MessageFuture.Done is an arm of a blocking select in a function the reply path does not reach (nobody but the waiting requester takes the completion token). NOT decided: schedules; connection loss while requests are pending (getty behaviour)."
+	r.Explain += " Round 8: (C14.table, also) at every exit of a send function that takes the waiter's callback, a future stored on the way (by the function or a helper of the package analysed in its context, deferred clean-ups run at the exits) was removed or handed to the waiter — none is left in the table without an owner."
 	r.Trusted = []string{"go/types, go/cfg", "sync.Map", "C13.mirror ties RpcMessage.ID to the header's request id"}
 	w := r.W
 	mf := w.NamedType("pkg/protocol/message", "MessageFuture")
@@ -351,15 +352,39 @@ func checkC14(r *core.Run) {
 
 		}
 	}
-	for _, ex := range res.Exits {
-		// what holds when this exit reports a failure (an exit `return nil, helper(..)` fails when the helper does)
-		has := func(t string) bool {
-			return ex.St.Has(t) || (ex.Class == flow.ExitEither && ex.FailImpl[t])
+	// (a clean-up written as a deferred literal that looks at the error being returned is read at the exits: the
+	// second reading; the first one is kept for the forms it reads better)
+	failedWrites := func(exits []*flow.Exit) (n int, bad []*flow.Exit) {
+		for _, ex := range exits {
+			ex := ex
+			// what holds when this exit reports a failure (an exit `return nil, helper(..)` fails when the helper does)
+			has := func(t string) bool {
+				return ex.St.Has(t) || (ex.Class == flow.ExitEither && ex.FailImpl[t])
+			}
+			if has("fail:write") {
+				n++
+				if !(has("delete") && ex.Class != flow.ExitOK) {
+					bad = append(bad, ex)
+				}
+			}
 		}
-		if has("fail:write") {
-			r.Sites++
-			r.Check(has("delete") && ex.Class != flow.ExitOK, "C14.table", key+" write failure removes the future", w.Pos(ex.Pos), "deleted and reported", "a failed write leaves the pending future in the table (or is not reported)")
+		return
+	}
+	nfw, badfw := failedWrites(res.Exits)
+	if len(badfw) > 0 {
+		sp2 := *sp
+		sp2.DeferAtExit = true
+		if n2, bad2 := failedWrites(sp2.Analyze(send).Exits); n2 > 0 && len(bad2) == 0 {
+			nfw, badfw = n2, nil
 		}
+	}
+	r.Sites += nfw
+	if nfw > 0 {
+		pos := w.Pos(send.Decl.Pos())
+		if len(badfw) > 0 {
+			pos = w.Pos(badfw[0].Pos)
+		}
+		r.Check(len(badfw) == 0, "C14.table", key+" write failure removes the future", pos, "deleted and reported", "a failed write leaves the pending future in the table (or is not reported)")
 	}
 	delField := keysOf(mapFieldOps(w, send, "Delete", 2, map[*core.FuncInfo]bool{}))
 	r.Sites++
@@ -437,6 +462,118 @@ func checkC14(r *core.Run) {
 		}
 		if nTouch < 3 {
 			r.Bad("C14.table", "INSTANCE-FLOOR uses of the pending-futures table", "", "fewer uses of the table than the store, the failed-write delete and the remover confirmed by hand")
+		}
+		// a stored future has an owner on every way out of the send: the waiter it was handed to (whose timeout
+		// removes it), or nobody — and then the send itself has removed it again. A return between the store and
+		// the hand-over that does neither leaves an entry no timeout will ever clear.
+		// (read from the functions of the send that take the waiter's callback, with the package's helpers analysed
+		// in their context: a helper that registers the future, or writes and forgets on failure, is part of the
+		// path; a clean-up in a deferred literal is run at the exits)
+		storesIn := func(f *core.FuncInfo) bool {
+			for _, cs := range w.Calls(f) {
+				if op, field := mapOp(w, f.Pkg.TypesInfo, cs.Call, cs.Static); op == "Store" && field == storeField {
+					return true
+				}
+			}
+			return false
+		}
+		var reachStore func(f *core.FuncInfo, depth int, seen map[*core.FuncInfo]bool) bool
+		reachStore = func(f *core.FuncInfo, depth int, seen map[*core.FuncInfo]bool) bool {
+			if seen[f] || depth > 4 {
+				return false
+			}
+			seen[f] = true
+			if storesIn(f) {
+				return true
+			}
+			for _, cs := range w.Calls(f) {
+				if cs.Iface || cs.Static == nil || cs.InGo {
+					continue
+				}
+				if g := w.Info(cs.Static); g != nil && g.Pkg == f.Pkg && g.Decl.Body != nil && reachStore(g, depth+1, seen) {
+					return true
+				}
+			}
+			return false
+		}
+		covered := map[*core.FuncInfo]bool{}
+		for _, f := range w.SortedFuncs() {
+			if !sendChain[f] || w.IsTestFile(f.Decl.Pos()) || f.Decl.Body == nil {
+				continue
+			}
+			var cb types.Object
+			for _, p := range paramObjs(f) {
+				if _, isFn := p.Type().Underlying().(*types.Signature); isFn {
+					cb = p
+				}
+			}
+			seen := map[*core.FuncInfo]bool{}
+			if cb == nil || !reachStore(f, 0, seen) {
+				continue
+			}
+			for g := range seen {
+				covered[g] = true
+			}
+			// (paths with and without a stored future are kept apart: "stored" goes with "there is a callback";
+			// so are paths that removed it again)
+			type bad struct {
+				pos  token.Pos
+				role string
+			}
+			reading := func(deferAtExit bool) (n int, bads []bad) {
+				// (a future is stored only when there is a waiter — decided above, "Store only with a waiter" — so a
+				// path that stored one and then finds the callback nil does not exist)
+				sp := &flow.Spec{W: w, Depth: 0, Inline: 4, Fork: true, Split: []flow.Tag{"stored", "removed"}, DeferAtExit: deferAtExit, Contradict: [][2]flow.Tag{{"stored", "nowaiter"}}}
+				sp.CondTags = func(pkg *packages.Package, cond ast.Expr, branch bool) []flow.Tag {
+					if condImpliesNil(pkg.TypesInfo, cond, branch, cb, true) {
+						return []flow.Tag{"nowaiter"}
+					}
+					return nil
+				}
+				sp.Classify = func(pkg *packages.Package, call *ast.CallExpr, callee *types.Func) []flow.Tag {
+					if op, field := mapOp(w, pkg.TypesInfo, call, callee); field == storeField {
+						switch op {
+						case "Store":
+							return []flow.Tag{"stored"}
+						case "Delete", "LoadAndDelete":
+							return []flow.Tag{"removed"}
+						}
+					}
+					if id, ok := ast.Unparen(call.Fun).(*ast.Ident); ok && pkg.TypesInfo.Uses[id] != nil && sp.RootOf(pkg.TypesInfo.Uses[id]) == cb {
+						return []flow.Tag{"handedover"}
+					}
+					return nil
+				}
+				for _, ex := range sp.Analyze(f).Exits {
+					if !ex.St.Maybe("stored") {
+						continue
+					}
+					n++
+					if !(ex.St.Maybe("handedover") || ex.St.Has("removed")) {
+						bads = append(bads, bad{ex.Pos, exitRole(ex, func(t string) bool { return inSet(t, "stored", "removed", "handedover") })})
+					}
+				}
+				return
+			}
+			n, bads := reading(false)
+			if len(bads) > 0 {
+				if n2, bads2 := reading(true); len(bads2) == 0 && n2 > 0 {
+					bads = nil
+				}
+			}
+			r.Sites += n
+			r.Check(len(bads) == 0, "C14.table", core.ShortKey(f.Obj)+" leaves no future without an owner", w.Pos(f.Decl.Pos()),
+				"every exit after the store: handed to the waiter, or removed again", func() string {
+					if len(bads) == 0 {
+						return ""
+					}
+					return "the send returns (" + bads[0].role + ", " + w.Pos(bads[0].pos) + ") after storing a pending future without handing it to the waiter and without removing it: nothing will ever delete that entry (no waiter runs, so no timeout fires) — every request abandoned this way stays in the table"
+				}())
+		}
+		for _, f := range w.SortedFuncs() {
+			if sendChain[f] && !w.IsTestFile(f.Decl.Pos()) && f.Decl.Body != nil && storesIn(f) && !covered[f] {
+				r.Undecided("C14.table", core.ShortKey(f.Obj)+" stores a future on a path from a function that takes the waiter's callback", w.Pos(f.Decl.Pos()), "not reached within four frames from a send function with a callback parameter")
+			}
 		}
 	}
 	// ---- the waiter
